@@ -284,7 +284,8 @@ def rule_field_row(ctx, rule="O9.6", mode="values"):
         mark = ch.choose("empty mark", ["", "x", "X", " x ", "y", "xx", "0"])
         length_shape = ch.choose("length", ["absent", "exact 3", "exact 0", "exact -1", "range 1-3", "open lower -1", "open upper only -1",
                                             "open upper only 5", "lower 0", "two items open on both ends",
-                                            "two items, the open one ends at -1", "two items open on both ends, one ending at -2"])
+                                            "two items, the open one ends at -1", "two items open on both ends, one ending at -2",
+                                            "two exact items 1 and 3"])
         example = ch.choose("example", ["", "good", "bad"])
         duplicate = ch.choose("duplicate name", [False, True])
         construction = ch.choose("construction", ["ok", "InterfaceError"])
@@ -296,8 +297,16 @@ def rule_field_row(ctx, rule="O9.6", mode="values"):
             # a negative limit hidden from the overall limits by an open side of the range
             "two items, the open one ends at -1": ([(None, -1), (3, 3)], None, 3),
             "two items open on both ends, one ending at -2": ([(None, -2), (5, None)], None, None),
+            # round 11: every part is a specific number, the length as a whole is not (a fixed field has ONE width)
+            "two exact items 1 and 3": ([(1, 1), (3, 3)], 1, 3),
         }
         items, lower, upper = shapes[length_shape]
+        # round 11: the type cell - every dot-separated part has to be a Python name, not only the last one (varied on the
+        # plainest row only, the dimensions are independent)
+        plain = format_name == "delimited" and mark == "" and length_shape == "absent" and example == "" and not duplicate \
+            and construction == "ok"
+        type_text = ch.choose("type", ["", "Text", "fields.Text", ".Text", "1x.Text", "a b.Text", "fields..Text", "Text.", "fields.1x"]) if plain else ""
+        type_ok = type_text == "" or all(part.isidentifier() and not keyword.iskeyword(part) for part in type_text.split("."))
         seen = {}
 
         @stub
@@ -325,7 +334,23 @@ def rule_field_row(ctx, rule="O9.6", mode="values"):
             field.attrs.update({"_field_name": args[1], "_example": None, "validated": validated,
                                 "_length": Obj(model.cls("cutplace.ranges.Range"), {"_items": items, "_lower_limit": lower, "_upper_limit": upper})})
 
+        def real_tokens(interp_, args, kwargs):
+            # summary of _tools.generated_tokens for a concrete text: the tokens CPython yields, without the NEWLINE it adds
+            import io as _io
+            import tokenize as _tokenize
+
+            if not isinstance(args[0], str):
+                raise Undecided("tokens of %r" % (args[0],))
+            try:
+                tokens = [tuple(item) for item in _tokenize.generate_tokens(_io.StringIO(args[0]).readline)]
+            except (_tokenize.TokenError, SyntaxError) as error:
+                interp_.raise_("tokenize.TokenError", str(error))
+            if len(tokens) >= 2 and tokens[-2][0] in (_token.NEWLINE, _token.NL) and tokens[-1][0] == _token.ENDMARKER:
+                del tokens[-2]
+            return AbsIter(lambda index: tokens[index] if index < len(tokens) else AbsIter.STOP, "tokens")
+
         stubs = {
+            "cutplace._tools.generated_tokens": stub(real_tokens),
             CID + "._create_field_format_class": stub(lambda i, a, k: ClassRef(model.cls("cutplace.fields.TextFieldFormat"))),
             "cutplace.fields.TextFieldFormat.__new__": field_new, _init_of(model, "cutplace.fields.TextFieldFormat"): field_init,
         }
@@ -341,7 +366,7 @@ def rule_field_row(ctx, rule="O9.6", mode="values"):
             cid.attrs["_field_formats"].append("earlier")
             cid.attrs["_field_name_to_index_map"]["name"] = 0
         try:
-            interp.call_function(model.func(CID + ".add_field_format_row"), [cid, ["name", example, mark, "LENGTH", "", "RULE"]], {}, None)
+            interp.call_function(model.func(CID + ".add_field_format_row"), [cid, ["name", example, mark, "LENGTH", type_text, "RULE"]], {}, None)
             outcome = "accepted"
         except AbsRaise as raised:
             outcome = "raise " + exc_name(raised.value)
@@ -350,6 +375,8 @@ def rule_field_row(ctx, rule="O9.6", mode="values"):
                 if not isinstance(location, Obj) or location.attrs.get("_line") != 7:
                     outcome += " without the row's location"
         key = "format=%s mark=%r length=%s example=%r duplicate=%s construction=%s" % (format_name, mark, length_shape, example, duplicate, construction)
+        if type_text:
+            key += " type=%r" % type_text
         if mode == "errors":
             # C10: whatever the cells of a field row, it is accepted or refused with InterfaceError - nothing else
             actual = outcome if not (outcome == "accepted" or outcome.startswith("raise InterfaceError")) else "accepted-or-InterfaceError"
@@ -360,7 +387,7 @@ def rule_field_row(ctx, rule="O9.6", mode="values"):
         else:
             # no part of the length may have a negative limit (not only the overall limits, which an open part hides)
             length_ok = items is None or all((low is None or low >= 0) and (high is None or high >= 0) for low, high in items)
-        accepted = not duplicate and mark_ok and construction == "ok" and length_ok and example != "bad"
+        accepted = not duplicate and mark_ok and construction == "ok" and length_ok and example != "bad" and type_ok
         if not accepted:
             return (key, outcome, "raise InterfaceError")
         if outcome != "accepted":
